@@ -57,8 +57,10 @@ def tolerated(case, out, bucket):
     if dom and (bucket.startswith('missing:') or bucket.startswith('knobs-changed')
             or bucket.startswith('crash:')):
         return dom[0]
-    if bucket.startswith('missing:') or bucket.startswith('knobs-changed'):
-        # rate-capped: the harness turns more than max_hits_per_run of these into a violation
+    if (bucket.startswith('missing:') or bucket.startswith('knobs-changed')) and any(
+            r['kind'] == 'circ' and sum(b - a for a, b in r['frags']) < 30
+            for r in case['records']):
+        # circRNAs of fewer than 30 nt (not generated any more; pinned witness only)
         return 'C01-rare-tail'
     return None
 
